@@ -25,7 +25,7 @@ NodeTypes == {"comment", "text", "processing-instruction", "node"}
 Arity == [last |-> {0}, position |-> {0}, count |-> {1}, id |-> {1}, name |-> {0, 1}, string |-> {0, 1},
           concat |-> 2..8, contains |-> {2}, substring |-> {2, 3}, translate |-> {3}, boolean |-> {1},
           not |-> {1}, true |-> {0}, false |-> {0}, lang |-> {1}, number |-> {0, 1}, sum |-> {1}, floor |-> {1},
-          ceiling |-> {1}, round |-> {1}, current |-> {0}]
+          ceiling |-> {1}, round |-> {1}, current |-> {0}, key |-> {2}]
 Arity2 == [x \in {"local-name", "namespace-uri", "string-length", "normalize-space"} |-> {0, 1}] @@
           [x \in {"starts-with", "substring-before", "substring-after"} |-> {2}]
 KnownFn(f) == f \in DOMAIN Arity \/ f \in DOMAIN Arity2
